@@ -1,5 +1,4 @@
 import Verif.Lemmas.StdioOut
-import Verif.Model.StdioExit
 
 /-! # C06 — stdio outbound framing: one message, one line, in order, content preserved
 
@@ -263,84 +262,48 @@ the correspondence run's slow-stdin cases look for.) -/
 example : split LF ([[91, 49, 44], [123, 125, 10], [50, 93, 10]] : List (List Nat)).flatten
     = ([[91, 49, 44, 123, 125], [50, 93]], []) := by decide
 
-/-! ## Supplementary: which exception leaves the connection (`stdio_client()`, `stdio_client_with_initialize()`)
 
-The marker strings and the `raise` / no-`raise` of every branch of the two `except` clauses are
-REGENERATED from the source (`Gen/StdioExit.lean`); `Model/StdioExit.lean` interprets them.  A
-serialisation failure of the writer ("JSON object must be str …") must never be swallowed; the only
-things swallowed are cancellation and the "cancel scope" noise of a shutdown. -/
-section exit
-open Verif.Gen.StdioExit Verif.Model.StdioExit
+/-! ## Several connections, and other users of the serialiser, in one process -/
 
-/-- the four filters of the two entry points -/
-def exitFilters : List Filter := [clientSingle, clientGroup, initSingle, initGroup]
+/-- **Instances are independent.**  Outbound items of several live connections put on their write
+streams in any alternation (equal ids, equal messages …): the child of connection `i` receives exactly
+the sends of connection `i`'s own items, in order — one line each, whatever the others do (an
+unserialisable object on one connection costs the others nothing). -/
+theorem c06_instances_independent (st : Style) (items : List (Nat × Outbound)) :
+    ∀ (pipes : Nat → List (List Nat)) (i : Nat),
+      playTagged st pipes items i = pipes i ++ sendsTagged st items i := by
+  induction items with
+  | nil => intro pipes i; simp [playTagged, sendsTagged, sends]
+  | cons p rest ih =>
+    intro pipes i
+    obtain ⟨j, it⟩ := p
+    simp only [playTagged]
+    rw [ih]
+    by_cases hij : i = j
+    · subst hij
+      cases hs : ser st it <;> simp [sendsTagged, sends, List.filterMap_cons, hs]
+    · have hji : ¬ j = i := fun e => hij e.symm
+      simp [sendsTagged, sends, List.filterMap_cons, hij, hji]
 
-/-- the translator covered both functions -/
-theorem c06_exit_translated : Verif.Gen.StdioExit.translatable = true := by decide
+/-- **What the process serialised before does not matter.**  Other calls of the serialiser between the
+writer's messages — with `indent`, `sort_keys`, anything — leave the child's bytes exactly those of the
+messages alone: the serialiser keeps nothing between calls.  (The correspondence run performs such
+calls in the same process before and between writer scenarios.) -/
+theorem c06_history_irrelevant (st : Style) (calls : List Call) :
+    playCalls st calls = sends st (messagesOf calls) := by
+  induction calls with
+  | nil => rfl
+  | cons c rest ih =>
+    cases c with
+    | dumps kw v => simpa [playCalls, messagesOf] using ih
+    | message it =>
+      simp only [playCalls, messagesOf, ih, sends, List.filterMap_cons]
+      cases ser st it <;> simp
 
-/-- **Only "cancel scope" is swallowed.**  For each of the four filters and EVERY exception text: an
-ordinary (non-cancellation) exception is re-raised unless its text contains "cancel scope"
-(case-insensitively) — in particular every JSON serialisation error and every unknown error. -/
-theorem c06_exit_only_cancel_scope_swallowed (f : Filter) (hf : f ∈ exitFilters) (msg : List Char) :
-    decideOne f false msg = !contains "cancel scope".toList (lower msg) := by
-  simp only [exitFilters, List.mem_cons, List.mem_nil_iff, or_false] at hf
-  rcases hf with rfl | rfl | rfl | rfl <;>
-  · simp only [decideOne, clientSingle, clientGroup, initSingle, initGroup, firstMatch]
-    cases contains "cancel scope".toList (lower msg) <;>
-      cases contains "json object must be str".toList (lower msg) <;> simp
-
-/-- a serialisation error of the writer always propagates (unless the same text also says "cancel scope") -/
-theorem c06_exit_serialisation_error_propagates (f : Filter) (hf : f ∈ exitFilters) (msg : List Char)
-    (h1 : contains "json object must be str".toList (lower msg) = true)
-    (h2 : contains "cancel scope".toList (lower msg) = false) : decideOne f false msg = true := by
-  rw [c06_exit_only_cancel_scope_swallowed f hf msg, h2]; rfl
-
-/-- **Groups.**  An exception group leaves `stdio_client()` / `stdio_client_with_initialize()` exactly when
-some member is neither a cancellation nor a "cancel scope" message; a lone cancellation is never
-caught (it is not an `Exception`). -/
-theorem c06_exit_group (single grp : Filter) (hg : grp ∈ exitFilters) (ms : List (Bool × List Char)) :
-    propagates single grp (.group ms) = ms.any (fun m => !m.1 && !contains "cancel scope".toList (lower m.2))
-    ∧ propagates single grp .cancelled = true := by
-  refine ⟨?_, rfl⟩
-  simp only [propagates]
-  congr 1
-  funext m
-  cases hc : m.1 with
-  | true => simp [decideOne, hc]
-  | false => simp [c06_exit_only_cancel_scope_swallowed grp hg m.2, hc]
-
-example : decideOne clientSingle false "JSON object must be str, bytes or bytearray, not dict".toList = true
-    ∧ decideOne initGroup false "Attempted to exit a Cancel Scope that isn't the current task's".toList = false
-    ∧ decideOne clientSingle false "boom".toList = true
-    ∧ propagates initSingle initGroup (.group [(true, []), (false, "cancel scope".toList)]) = false
-    ∧ propagates initSingle initGroup (.group [(true, []), (false, "x".toList)]) = true := by decide
-
-end exit
-
-/-! ## Supplementary: entry guards -/
-
-/-- the constructor accepts exactly a non-empty command with a list / tuple of arguments -/
-theorem c06_guard_ctor (c a : Bool) : ctorCheck c a = .ok () ↔ (c = true ∧ a = true) := by
-  cases c <;> cases a <;> simp [ctorCheck]
-
-/-- the streams can be used exactly once the object has been entered (at any time, also after an
-exit: the flag is never cleared); before that every use raises `RuntimeError` -/
-theorem c06_guard_streams (h : List LifeOp) :
-    (useStreams h = .ok () ↔ LifeOp.enter ∈ h) ∧ (useStreams h = .error .runtimeError ↔ LifeOp.enter ∉ h) := by
-  unfold useStreams initialized
-  by_cases hm : LifeOp.enter ∈ h <;> simp [hm]
-
-/-- the transport wrapper hands out streams exactly while it is entered -/
-theorem c06_guard_transport (h : List LifeOp) :
-    transportGetStreams (h ++ [.enter]) = .ok () ∧ transportGetStreams (h ++ [.exit]) = .error .runtimeError
-    ∧ transportGetStreams [] = .error .runtimeError := by
-  refine ⟨?_, ?_, rfl⟩
-  · simp [transportGetStreams, transportHasClient, List.getLast?_append]
-  · simp [transportGetStreams, transportHasClient, List.getLast?_append]
-
-example : useStreams [] = .error .runtimeError ∧ useStreams [.enter, .exit] = .ok ()
-    ∧ transportGetStreams [.enter, .exit] = .error .runtimeError ∧ ctorCheck false true = .error .valueError :=
-  ⟨rfl, rfl, rfl, rfl⟩
+example : playTagged orjsonStyle (fun _ => [])
+    [(0, .raw ['a']), (1, .unserialisable), (1, .raw ['b']), (0, .raw ['c'])] 0 = [[97, 10], [99, 10]]
+    ∧ playCalls orjsonStyle [.dumps ⟨true, true⟩ (.obj []), .message (.raw ['a']), .dumps ⟨true, false⟩ .null, .message (.raw ['b'])]
+        = [[97, 10], [98, 10]] := by decide
 
 /-! ## Non-vacuity: a dict whose string holds LF, CR, U+2028, NUL, a quote and U+1F600, a typed
 request with `params` absent and one with a nested null, an unserialisable object, a pre-serialised
